@@ -110,6 +110,8 @@ class Py:
         self.ml, self.np = ml, np
         self.ens = ml.ConformerEnsemble(None, n_conformers=0, n_atoms=0)
         self.its = []
+        self.others = []     # other live ensembles of the history (sources of copies), most recent first
+        self.kept = []       # (conformer object handed out by an iteration and kept, row it was handed out for)
         self.scratch = scratch
         self.use_lib = use_lib
         self.nlib = 0
@@ -156,11 +158,75 @@ class Py:
         return (self.np.array(e.coords, dtype=float).copy(), self.np.array(e.atomic_charges, dtype=float).copy(),
                 self.np.array(e.weights, dtype=float).copy())
 
-    def state(self) -> str:
-        c, q, w = self.arrays()
+    def arrays_of(self, e):
+        return (self.np.array(e.coords, dtype=float).copy(), self.np.array(e.atomic_charges, dtype=float).copy(),
+                self.np.array(e.weights, dtype=float).copy())
+
+    def state_of(self, e) -> str:
+        c, q, w = self.arrays_of(e)
         cs = [conf(x) for x in c.tolist()] if c.ndim == 3 else ["?"]
         qs = [vec(x) for x in q.tolist()] if q.ndim == 2 else ["?"]
         return ("state " + str(len(cs)) + " " + " ".join(cs) + " | " + str(len(qs)) + " " + " ".join(qs) + " | " + vec(w.tolist()))
+
+    def state(self) -> str:
+        return self.state_of(self.ens) + f" || others {len(self.others)}" + "".join(" || " + self.state_of(o) for o in self.others)
+
+    # ---- the real codec (encoder + decoder of the library classes), with or without a file ----
+    _codec = {}
+
+    def through_codec(self, obj, kind: str):
+        """what a library gives back for `obj`: a real library file when use_lib, else the library object's own
+        encoder and decoder (the same functions, no file)"""
+        if self.use_lib:
+            self.nlib += 1
+            p = self.scratch / f"c14_{kind}_{self.nlib}.{'mlib' if kind == 'mol' else 'clib'}"
+            cl.new_library_file(kind, p, 2)
+            errs = cl.store(kind, p, [("k", obj)])
+            if errs:
+                raise errs["k"]
+            back = cl.load(kind, p, ["k"])["k"]
+            p.unlink(missing_ok=True)
+            if isinstance(back, Exception):
+                raise back
+            return back
+        key = (str(self.scratch), kind)
+        if key not in Py._codec:
+            p = self.scratch / f"c14_codec.{'mlib' if kind == 'mol' else 'clib'}"
+            with cl.hard_timeout(cl.SESSION_TIMEOUT, "codec library"):
+                Py._codec[key] = cl.lib_class(kind)(p, readonly=False)
+        lib = Py._codec[key]
+        if kind == "mol":
+            return lib._molecule_decoder(lib._molecule_encoder(obj))
+        return lib._ensemble_decoder(lib._ensemble_encoder(obj))
+
+    def same_f32(self, a, b) -> bool:
+        np = self.np
+        a, b = np.asarray(a, dtype=float), np.asarray(b, dtype=float)
+        return a.shape == b.shape and bool(np.all(((a != a) & (b != b)) | (np.abs(a - b) <= 1e-6 * np.maximum(1.0, np.abs(a)))))
+
+    def dump_conf(self, cf) -> str:
+        """write the conformer as xyz and mol2 and send it through the molecule codec; the text / the decoded molecule
+        must be this conformer"""
+        np = self.np
+        out = "view " + self.view(cf)
+        s1, s2 = io.StringIO(), io.StringIO()
+        cf.dump_xyz(s1)
+        cf.dump_mol2(s2)
+        xl = s1.getvalue().splitlines()
+        want = np.array(cf.coords, dtype=float)
+        if int(xl[0].split()[0]) != cf.n_atoms or len(xl) < 2 + cf.n_atoms:
+            raise ValueError("xyz block does not have n_atoms atom lines")
+        for a in range(cf.n_atoms):
+            got = [float(x) for x in xl[2 + a].split()[1:4]]
+            for g, w_ in zip(got, want[a]):
+                if not ((g != g and w_ != w_) or abs(g - w_) <= 1e-5 * max(1.0, abs(w_))):
+                    raise ValueError("xyz block shows other coordinates than the conformer")
+        if cf.n_atoms != np.shape(cf.coords)[0] or np.shape(cf.atomic_charges) != (cf.n_atoms,):
+            raise ValueError("conformer is not a full molecule")
+        back = self.through_codec(cf, "mol")
+        if not (self.same_f32(back.coords, cf.coords) and self.same_f32(back.atomic_charges, cf.atomic_charges)):
+            raise ValueError("the stored conformer is another molecule")
+        return out
 
     def view(self, c) -> str:
         return conf(self.np.array(c.coords, dtype=float).tolist()) + " " + vec(self.np.array(c.atomic_charges, dtype=float).tolist())
@@ -173,19 +239,52 @@ class Py:
         e = self.ens
         if op == "ctorAtoms":
             nA, nC = t.nat(), t.nat()
-            self.ens, self.its = self.new_ens(nA, nC), []
+            self.ens, self.its, self.kept = self.new_ens(nA, nC), [], []
             return "ok"
         if op == "ctorMol":
             nA, k = t.nat(), t.nat()
             m = ml.Molecule(self.elems(nA), coords=np.arange(nA * 3, dtype=float).reshape((nA, 3)) / 8)
-            self.ens, self.its = (ml.ConformerEnsemble(m, n_conformers=k) if k else ml.ConformerEnsemble(m)), []
+            self.ens, self.its, self.kept = (ml.ConformerEnsemble(m, n_conformers=k) if k else ml.ConformerEnsemble(m)), [], []
             return "ok"
         if op == "ctorMols":
             ms = [self.geom_obj(c, q) for c, q in t.many(t.geom)]
-            self.ens, self.its = ml.ConformerEnsemble(ms), []
+            self.ens, self.its, self.kept = ml.ConformerEnsemble(ms), [], []
             return "ok"
-        if op == "ctorCopy":
-            self.ens, self.its = ml.ConformerEnsemble(e), []
+        if op in ("ctorCopy", "ctorCopyKw"):
+            new = ml.ConformerEnsemble(e) if op == "ctorCopy" else ml.ConformerEnsemble(e, name="copy", n_conformers=1, charge=e.charge)
+            self.others.insert(0, e)
+            self.ens, self.its, self.kept = new, [], []
+            return "ok"
+        if op == "swap":
+            k = t.nat()
+            if k >= len(self.others):
+                raise IndexError(k)
+            self.others[k], self.ens = e, self.others[k]
+            self.its, self.kept = [], []
+            return "ok"
+        if op == "iterNextKeep":
+            k = t.nat()
+            try:
+                cf = next(self.its[k])
+            except StopIteration:
+                return "stop"
+            self.kept.append((cf, cf._conf_id))
+            return f"yield {cf._conf_id}"
+        if op == "loopKeep":
+            objs = list(e)
+            self.kept += [(cf, i) for i, cf in enumerate(objs)]     # the i-th object handed out stands for row i
+            return "idxs " + ",".join(str(cf._conf_id) for cf in objs)
+        if op == "readKept":
+            return "view " + self.view(self.kept[t.nat()][0])
+        if op == "dumpKept":
+            return self.dump_conf(self.kept[t.nat()][0])
+        if op == "writeKept":
+            j, c = t.nat(), t.conf()
+            cf = self.kept[j][0]
+            a = np.array(c, dtype=float).reshape((len(c), 3))
+            if a.shape != np.shape(cf.coords):
+                raise ValueError("shape")
+            cf.coords = a
             return "ok"
         if op == "append":
             c, q = t.geom()
@@ -300,60 +399,16 @@ class Py:
             a, b, c = t.optint(), t.optint(), t.optint()
             return "idxs " + ",".join(str(x._conf_id) for x in e[slice(a, b, c)])
         if op == "dump":
-            i = t.nat()
-            cf = e[i]
-            out = "view " + self.view(cf)
-            s1, s2 = io.StringIO(), io.StringIO()
-            cf.dump_xyz(s1)
-            cf.dump_mol2(s2)
-            # the xyz text really is this conformer: n_atoms atom lines carrying row i (to the 1e-5 the format keeps)
-            xl = s1.getvalue().splitlines()
-            want = np.array(cf.coords, dtype=float)
-            if int(xl[0].split()[0]) != cf.n_atoms or len(xl) < 2 + cf.n_atoms:
-                raise ValueError("xyz block does not have n_atoms atom lines")
-            for a in range(cf.n_atoms):
-                got = [float(x) for x in xl[2 + a].split()[1:4]]
-                for g, w_ in zip(got, want[a]):
-                    if not ((g != g and w_ != w_) or abs(g - w_) <= 1e-5 * max(1.0, abs(w_))):
-                        raise ValueError("xyz block shows other coordinates than the conformer")
-            if cf.n_atoms != np.shape(cf.coords)[0] or np.shape(cf.atomic_charges) != (cf.n_atoms,):
-                raise ValueError("conformer is not a full molecule")
-            if self.use_lib:
-                self.nlib += 1
-                p = self.scratch / f"c14_conf_{self.nlib}.mlib"
-                cl.new_library_file("mol", p, 2)
-                errs = cl.store("mol", p, [("k", cf)])
-                if errs:
-                    raise errs["k"]
-                back = cl.load("mol", p, ["k"])["k"]
-                p.unlink(missing_ok=True)
-                if isinstance(back, Exception):
-                    raise back
-            return out
+            return self.dump_conf(e[t.nat()])
         if op == "serialise":
             c, q, w = self.arrays()
-            if self.use_lib:
-                self.nlib += 1
-                p = self.scratch / f"c14_ens_{self.nlib}.clib"
-                cl.new_library_file("ens", p, 2)
-                errs = cl.store("ens", p, [("k", e)])
-                if errs:
-                    raise errs["k"]
-                back = cl.load("ens", p, ["k"])["k"]
-                p.unlink(missing_ok=True)
-                if isinstance(back, Exception):
-                    raise back
-                if np.shape(back.coords) != c.shape or np.shape(back.atomic_charges) != q.shape or np.shape(back.weights) != w.shape:
-                    raise ValueError("shapes changed in the library")
-            else:
-                from molli.chem.io import _serialize_ens_v2
-                import msgpack
-                wire = msgpack.loads(msgpack.dumps(_serialize_ens_v2(e)), use_list=False, strict_map_key=False)
-                nc, na = wire[1], wire[2]
-                np.frombuffer(wire[8], dtype=">f4").reshape((nc, na, 3))
-                np.frombuffer(wire[10], dtype=">f4").reshape((nc, na))
-                if np.frombuffer(wire[9], dtype=">f4").shape != (nc,):
-                    raise ValueError("weights")
+            back = self.through_codec(e, "ens")
+            if np.shape(back.coords) != c.shape or np.shape(back.atomic_charges) != q.shape or np.shape(back.weights) != w.shape:
+                raise ValueError("shapes changed in the library")
+            if not (self.same_f32(back.coords, c) and self.same_f32(back.atomic_charges, q) and self.same_f32(back.weights, w)):
+                raise ValueError("values changed in the library")
+            if back.n_atoms != e.n_atoms:
+                raise ValueError("atom list changed in the library")
             vs = [conf(a.tolist()) + " " + vec(b.tolist()) for a, b in zip(c, q)]
             if len(c) != len(q):
                 raise ValueError("arrays disagree")
@@ -443,10 +498,97 @@ def gen_iter_storm(rng) -> list:
     return ops + ["loop"]
 
 
+def distinct_mols(rng, nA: int, nC: int) -> str:
+    """`ctorMols` with rows that differ from conformer to conformer (so that a view of the wrong row shows)"""
+    gs = []
+    for c in range(nC):
+        rows = [[c + 1 + a / 8.0, -(c + 1) / 2.0, a + c / 4.0] for a in range(nA)]
+        gs.append(conf(rows) + " Q" + str(nA) + "".join(" " + num((c + 1) / 4.0 + a) for a in range(nA)))
+    return f"ctorMols {nC} " + " ".join(gs)
+
+
+def gen_copies(rng) -> list:
+    """an ensemble, copies of it (with / without keywords), writes on either side, switches between them"""
+    nA, nC = rng.choice([1, 2, 3]), rng.range(1, 4)
+    ops = [distinct_mols(rng, nA, nC) if rng.chance(2, 3) else f"ctorAtoms {nA} {nC}"]
+    if rng.chance(1, 2):
+        ops.append(f"setCharges {nC} " + " ".join(vec([rnum(rng) for _ in range(nA)]) for _ in range(nC)))
+    ncs = [nC]          # conformer counts: current first, then the others
+    for _ in range(rng.range(6, 18)):
+        r = rng.below(20)
+        cur = ncs[0]
+        if r < 3 and len(ncs) < 4:
+            ops.append(rng.choice(["ctorCopy", "ctorCopyKw"]))
+            ncs.insert(0, cur)
+        elif r < 6 and len(ncs) > 1:
+            k = rng.below(len(ncs) - 1)
+            ops.append(f"swap {k}")
+            ncs[0], ncs[k + 1] = ncs[k + 1], ncs[0]
+        elif r < 9 and cur:
+            ops.append(f"writeCharges {rng.below(cur)} " + vec([rnum(rng) for _ in range(nA)]))
+        elif r < 11 and cur:
+            ops.append(f"writeCharge {rng.below(cur)} {rng.below(nA)} {num(rnum(rng))}")
+        elif r < 13 and cur:
+            ops.append(f"writeCoords {rng.below(cur)} " + conf(rconf(rng, nA)))
+        elif r < 14 and cur:
+            ops.append(f"writeAtom {rng.below(cur)} {rng.below(nA)} " + vec([rnum(rng) for _ in range(3)]))
+        elif r < 15:
+            ops.append(f"setWeights " + vec([rnum(rng) for _ in range(cur)]))
+        elif r < 16:
+            ops.append("translate " + vec([rnum(rng) for _ in range(3)]))
+        elif r < 17:
+            ops.append("append " + rgeom(rng, nA))
+            ncs[0] += 1
+        elif r < 18:
+            ops.append("serialise")
+        elif cur:
+            ops.append(f"read {rng.below(cur)}")
+    if len(ncs) > 1:
+        ops += ["swap 0", "loop"]
+    return ops + ["serialise"]
+
+
+def gen_kept(rng) -> list:
+    """conformer objects handed out by iterations are kept and used after the iteration moved on / ended"""
+    nA, nC = rng.choice([1, 2]), rng.range(2, 5)
+    ops = [distinct_mols(rng, nA, nC), "iterNew"]
+    nit, nk, grown = 1, 0, 0
+    for _ in range(rng.range(6, 16)):
+        r = rng.below(20)
+        if r < 6:
+            ops.append(f"iterNextKeep {rng.below(nit)}")
+            nk += 1                      # an upper bound (StopIteration keeps nothing): indices may be out of range -> err
+        elif r < 8:
+            ops.append("loopKeep")
+            nk += nC + grown
+        elif r < 12 and nk:
+            ops.append(f"readKept {rng.below(nk)}")
+        elif r < 14 and nk:
+            ops.append(f"writeKept {rng.below(nk)} " + conf(rconf(rng, nA)))
+        elif r < 16 and nk:
+            ops.append(f"dumpKept {rng.below(nk)}")
+        elif r < 17:
+            ops.append("iterNew")
+            nit += 1
+        elif r < 18 and grown < 2:
+            ops.append("append " + rgeom(rng, nA))
+            grown += 1
+        elif r < 19:
+            ops.append(f"iterNext {rng.below(nit)}")
+        else:
+            ops.append("scale 2 0")
+    return ops + ["loopKeep", "readKept 0", "loop"]
+
+
 def gen_sequence(rng, quick: bool) -> list:
     """a history: starts with a construction; mostly valid operations, some that must fail"""
-    if rng.chance(1, 4):
+    r0 = rng.below(12)
+    if r0 < 3:
         return gen_iter_storm(rng)
+    if r0 < 5:
+        return gen_copies(rng)
+    if r0 < 7:
+        return gen_kept(rng)
     ops = []
     nA = rng.choice([0, 1, 2, 3, 3, 4, 6])
     nC = rng.choice([0, 1, 2, 3, 5])
@@ -463,6 +605,8 @@ def gen_sequence(rng, quick: bool) -> list:
     else:
         ops.append(f"ctorAtoms {nA} {nC}")
         ops.append("ctorCopy")
+    if rng.chance(1, 2):
+        ops += ["serialise"] + (["dump 0"] if rng.chance(1, 3) else [])     # before the first append, whatever nC / nA are
     budget = 6          # scale / rotate steps: keeps every value exactly representable
     nit = 0
     n = rng.range(3, 14 if quick else 30)
@@ -540,15 +684,21 @@ def gen_sequence(rng, quick: bool) -> list:
 
 
 def exhaustive(quick: bool) -> list:
-    """all histories of length 2 (thorough: 3) over a small alphabet, after a fixed construction"""
+    """all histories of length 2 (thorough: 3) over a small alphabet, after a fixed construction; the short alphabet also
+    from ensembles with no conformers and / or no atoms (nothing appended yet)"""
     import itertools
     g = "C2 1 0 0 0 1/2 0 Q2 1/4 -1/4"
     alpha = ["append " + g, "append C2 0 0 0 0 0 1 Q-", "extendSelf", "extendGeoms 1 " + g, "iterNew", "iterNext 0", "iterNext 1",
              "writeCharges 0 V2 1 2", "writeCoords 1 C2 1 1 1 2 2 2", "scale 2 0", "loop", "nestedLoop", "dump 2", "read 1", "slice - - -1",
-             "translate V3 1 0 0", "ctorCopy", "serialise"]
+             "translate V3 1 0 0", "ctorCopy", "serialise", "swap 0", "loopKeep", "iterNextKeep 0", "readKept 0", "writeKept 1 C2 3 3 3 4 4 4"]
     out = []
     for seq in itertools.product(alpha, repeat=2 if quick else 3):
         out.append(["ctorAtoms 2 2"] + list(seq) + ["loop", "dump 0"])
+    for start, nA in (("ctorAtoms 2 0", 2), ("ctorAtoms 0 0", 0), ("ctorAtoms 0 2", 0)):
+        ga = conf([[1, 0, 0]] * nA) + " Q-"
+        short = ["serialise", "append " + ga, "dump 0", "loop", "extendSelf", "ctorCopy", "nestedLoop", "read 0", "loopKeep", "swap 0"]
+        for seq in itertools.product(short, repeat=2 if quick else 3):
+            out.append([start] + list(seq) + ["serialise", "loop"])
     return out
 
 
@@ -613,6 +763,45 @@ def oracle_step(ctx, py: Py, line: str, out: str, before, history: list):
     return True
 
 
+def oracle_objects(ctx, py: Py, line: str, out: str, before, before_others, history: list):
+    """nothing else changes: every OTHER live ensemble of the history is what it was; a kept conformer still is its row"""
+    np = py.np
+    op = line.split()[0]
+    replay = {"ops": history}
+
+    def same(x, y):
+        return all(eq_arr(np, a, b) for a, b in zip(x, y))
+
+    if before_others is not None and out != "err":
+        try:
+            now = [py.arrays_of(o) for o in py.others]
+        except Exception as ex:  # noqa: BLE001
+            ctx.violation("C14:another-ensemble-damaged", f"after `{line[:50]}` another live ensemble cannot be read: {type(ex).__name__}", replay)
+            return
+        if op in ("ctorCopy", "ctorCopyKw"):
+            if before is not None and not (same(now[0], before) and same(py.arrays(), before)):
+                ctx.violation("C14:copy-differs-from-source", f"`{op}`: the copy / the source does not hold the arrays the source held", replay)
+            elif not (len(now) == len(before_others) + 1 and all(same(a, b) for a, b in zip(now[1:], before_others))):
+                ctx.violation("C14:write-changed-another-ensemble", f"`{op}` changed an ensemble constructed earlier", replay)
+        elif op == "swap":
+            pass
+        elif not (len(now) == len(before_others) and all(same(a, b) for a, b in zip(now, before_others))):
+            k = next((i for i, (a, b) in enumerate(zip(now, before_others)) if not same(a, b)), 0)
+            ctx.violation("C14:write-changed-another-ensemble",
+                          f"`{line[:60]}` on the current ensemble changed live ensemble #{k} of the history (its source / a copy made earlier)", replay)
+    c, q, _ = py.arrays()
+    for j, (cf, idx) in enumerate(py.kept):
+        try:
+            moved = cf._conf_id != idx or (idx < c.shape[0] and not (
+                eq_arr(np, np.array(cf.coords, dtype=float), c[idx]) and eq_arr(np, np.array(cf.atomic_charges, dtype=float), q[idx])))
+        except Exception:  # noqa: BLE001
+            moved = True
+        if moved:
+            ctx.violation("C14:kept-conformer-moved", f"the conformer object an iteration handed out for row {idx} (kept #{j}) shows "
+                                                      f"row {getattr(cf, '_conf_id', '?')} after `{line[:50]}`", replay)
+            break
+
+
 def oracle_out(ctx, py: Py, line: str, out: str, history: list, nc_before: int):
     op = line.split()[0]
     replay = {"ops": history}
@@ -658,14 +847,20 @@ def run_history(ctx, ops: list, use_lib: bool):
             before = None
         nc_before = before[0].shape[0] if before is not None and before[0].ndim else 0
         try:
+            before_others = [py.arrays_of(o) for o in py.others]
+        except Exception:  # noqa: BLE001
+            before_others = None
+        try:
             out = py.run(line)
         except cl.HardTimeout:
             raise
         except Exception:  # noqa: BLE001
             out = "err"
-        if line.startswith("ctor"):
+        if line.startswith("ctor") or line.startswith("swap"):
             py.held = None
         ok = oracle_step(ctx, py, line, out, before, list(hist))
+        if ok:
+            oracle_objects(ctx, py, line, out, before, before_others, list(hist))
         oracle_out(ctx, py, line, out, list(hist), nc_before)
         try:
             shp = py.shape()
@@ -706,8 +901,12 @@ def run(ctx):
                 "fresh and long-held conformer objects (rows, single atoms, charges), reads, slices (all sign / default "
                 "combinations), dumps (xyz, mol2, storing the conformer in a MoleculeLibrary), serialisation (ConformerLibrary), "
                 "iterator creation, interleaved next() calls, loops and nested loops; about one operation in ten is ill-shaped and "
-                "must fail without effect. 0..6 atoms, 0..10 conformers, NaN from the constructors. Preceded by all histories "
-                "of length 2 (thorough: 3) over an 18-operation alphabet. Non-trivial: the history grows or writes the ensemble "
+                "must fail without effect. 0..6 atoms, 0..10 conformers, NaN from the constructors. Several live ensembles per "
+                "history: copies (ConformerEnsemble(ens) with / without keywords), writes on either side, switches; every other "
+                "live ensemble is compared before / after every step. Conformer objects handed out by next() and list(ens) are "
+                "kept and read / written / dumped after the iteration advanced. serialise / dump always use the real encoder and "
+                "decoder, also before the first append (0 conformers, 0 atoms). Preceded by all histories "
+                "of length 2 (thorough: 3) over a 23-operation alphabet (and a 10-operation one from empty ensembles). Non-trivial: the history grows or writes the ensemble "
                 "AND reads it afterwards; distinct by the operation text.")
     ctx.assumptions += [
         "numbers in the histories are dyadic rationals of small height, so numpy's float64 arithmetic is exact and equals the model's rational arithmetic; NaN is one value",
@@ -730,7 +929,7 @@ def run(ctx):
             ctx.check_deadline()
         use_lib = src != "exhaustive" and (ctx.quick() is False or n % 3 == 0)
         res, st, _py = run_history(ctx, ops, use_lib)
-        grows = any(o.split()[0] in ("append", "extendEns", "extendSelf", "extendGeoms", "writeCoords", "writeCharges", "writeAtom", "writeCharge") for o in ops)
+        grows = any(o.split()[0] in ("append", "extendEns", "extendSelf", "extendGeoms", "writeCoords", "writeCharges", "writeAtom", "writeCharge", "writeKept") for o in ops)
         ctx.case(";".join(ops), nontrivial=grows)
         ctx.count("source:" + src)
         for f in classify(ops):
